@@ -129,7 +129,7 @@ func runMeshScenario(rng *rand.Rand, idx int, silent bool, maxNodes int) (sc mes
 	names = map[string]bool{}
 	o := mesh.Opts{RouteUpdate: 300 * time.Millisecond}
 	if silent {
-		o.MaxIdle = 1200 * time.Millisecond
+		o.MaxIdle = 2 * time.Second
 	}
 	m := mesh.New(o, int64(idx)*1000)
 	defer m.StopAll()
